@@ -14,7 +14,7 @@ from pyrex.askaryan import ZHSAskaryanSignal, AVZAskaryanSignal, ARZAskaryanSign
 from vlib.core import Divergence
 
 DT = 2.0 ** -31
-N_ICE = 1.78
+N_ICES = {1: 1.78, 2: 1.5}          # index of the (uniform) ice handed to the model: the cone follows the ice given
 MODELS = {'ZHS': ZHSAskaryanSignal, 'AVZ': AVZAskaryanSignal, 'ARZ': ARZAskaryanSignal}
 R0 = 100.0
 ENERGY = {0: 1e9, 1: 100.0, 2: 1.0, 3: 0.1, 4: 0.01}     # GeV: far above every threshold ... below every critical energy
@@ -22,19 +22,19 @@ DELTA = 0.02
 TOL = 1e-9
 
 
-def theta(a):
+def theta(a, n_ice=1.78):
     if a == 100:
         return 0.0
     if a == 101:
         return np.pi / 2
     if a == 102:
         return np.pi
-    return float(np.arccos(1 / N_ICE) + DELTA * a)
+    return float(np.arccos(1 / n_ice) + DELTA * a)
 
 
 class AskaryanDriver:
     def __init__(self):
-        self.ice = pyrex.ice_model.UniformIce(N_ICE)
+        self.ices = {k: pyrex.ice_model.UniformIce(v) for k, v in N_ICES.items()}
         self.evals = 0
         self.known = []
         logging.getLogger('pyrex').setLevel(logging.ERROR)
@@ -57,14 +57,14 @@ class AskaryanDriver:
         tot = float(em + had)
         p = pyrex.Particle('nu_e', (0, 0, -1000.0), (0, 0, 1), 1e9, interaction_type='cc')
         p.energy = ENERGY[st['en']] * st['kE']
-        p.interaction.em_frac, p.interaction.had_frac = em / tot, had / tot
+        p.interaction.em_frac, p.interaction.had_frac = em / tot / st['fdiv'], had / tot
         if st['zero']:
             if (how or self.zero_how) == 'energy':
                 p.energy = 0.0
             else:
                 p.interaction.em_frac = p.interaction.had_frac = 0.0
-        a = theta(st['off']) if ang is None else ang
-        sig = MODELS[st['model']](times, p, st['sign'] * a, R0 * st['kR'], ice_model=self.ice, t0=t0)
+        a = theta(st['off'], N_ICES[st['ice']]) if ang is None else ang
+        sig = MODELS[st['model']](times, p, st['sign'] * a, R0 * st['kR'], ice_model=self.ices[st['ice']], t0=t0)
         v = np.asarray(sig.values, dtype=float)
         self.evals += 1
         where = '%s(N=%d, dt=2^-31*%d, angle=%+.4f, R=%g, E=%g, fractions=%s, grid offset %d, t0 offset %d)' % (
@@ -115,16 +115,19 @@ class AskaryanDriver:
 
     def scan(self, st):
         """peak amplitudes on an angle lattice around the cone"""
-        thc = theta(0)
+        thc = theta(0, N_ICES[st['ice']])
         for delta in (DELTA, DELTA / 4):
             amps = np.array([np.max(np.abs(self.field(st, ang=thc + delta * k)[0])) for k in range(-6, 7)])
             if not np.any(amps > 0):
                 continue                                  # no pulse at all (e.g. sub-TeV hadronic shower in AVZ, below-critical ARZ)
-            if not amps[6] >= np.max(amps):
+            # on the fine lattice the comparison allows 0.5 %: the AVZ parameterisation carries a factor sin(theta) / sin(theta_c),
+            # which puts its true maximum a few milliradians above the cone (1.001 x the on-cone amplitude for n = 1.5)
+            slack = 1.0 if delta == DELTA else 1.005
+            if not amps[6] * slack >= np.max(amps):
                 raise Divergence('%s frac %s: angle of the largest peak amplitude on the lattice theta_c + %g k' % (st['model'], st['frac'], delta),
                                  'k = 0 (on the cone)', 'k = %d; %s' % (int(np.argmax(amps)) - 6, list(np.round(amps / amps[6], 4))))
             out = list(amps[6::-1]), list(amps[6:])          # walking away from the cone on either side
-            mono = all(b < a_ or (a_ == 0 and b == 0) for side in out for a_, b in zip(side, side[1:]))
+            mono = all(b < a_ * slack or (a_ == 0 and b == 0) for side in out for a_, b in zip(side, side[1:]))
             if not mono:
                 if st['model'] == 'ARZ':
                     self.known.append(('D29', 'ARZ peak amplitude is not monotone in the angular distance on a %g rad lattice '
